@@ -536,7 +536,8 @@ func Gen(r Rnd) *Doc {
 	}
 	ntag := r.Intn(3)
 	for i := 0; i < ntag; i++ {
-		t := &Tag{Name: fmt.Sprintf("@g%d", i), Annotation: genAnnotation(r, 1, 2)}
+		t := &Tag{Name: pick(r, []string{"@g%d", "@g%d", "@pet_store%d", "@a-b%d"}), Annotation: genAnnotation(r, 1, 2)}
+		t.Name = fmt.Sprintf(t.Name, i)
 		if chance(r, 1, 3) {
 			t.Description = genDescription(r)
 		}
